@@ -576,6 +576,12 @@ def step (d : D) (line : String) : IO D := do
         if d.backupSpecs.any (fun m => sameItems o.items m.items) then pure d
         else fail d "SPEC" s!"backup holds {o.items.length} keys: not the contents at any instant between Backup's call and return"
   | "failedopen" :: _ => pure d
+  | "failedclose" :: rest =>
+    -- a Close that returned an error did not complete: the session is unclean, the lock file stays
+    let d := { d with isOpen := false, specPrev := d.spec }
+    if (field rest "lock").getD "" != "1" then
+      fail d "SPEC" "a failed Close removed the lock file: the unclean shutdown will not be detected by the next Open"
+    else pure d
   | "bcompact" :: res :: _ =>
     -- Compact called while Backup runs: the maintenance lock must refuse it
     if res == "busy" then pure d
